@@ -179,11 +179,13 @@ def impl_automaton(cfg, flag0, effect_lines, event_receiver_ok=None):
                 if event_receiver_ok is None or event_receiver_ok(c):
                     acts.append(("ev", EVENTS[c.func.attr]))
         a = node.ast
-        if a is not None and node.kind in ("stmt", "return") and not getattr(node, "try_header", False):
+        if a is not None and node.kind in ("stmt", "return") and not getattr(node, "try_header", False) and not getattr(node, "spliced", False):
             lo, hi = a.lineno, getattr(a, "end_lineno", a.lineno)
             if getattr(node, "with_header", False):
                 hi = lo
-            if any(lo <= l <= hi for l in effect_lines):
+            # effect_lines: line numbers of the analysed function, or (function, line) pairs when helpers are spliced in
+            own = getattr(node, "owner", "")
+            if any((lo <= l <= hi and not getattr(node, "inst", ())) if isinstance(l, int) else (l[0] == own and lo <= l[1] <= hi) for l in effect_lines):
                 acts.append(("eff", "eff"))
         actions[node.id] = acts
     n.start = (cfg.entry.id, 0, flag0)
